@@ -153,8 +153,19 @@ def check_history(drv, r, carver, stats):
             if i == 0:
                 comb = [[l] for l in labs]
             req = dict(base_req, op="carve.measure", comb=comb, stage=stage)
-            m = drv.call(req)["m"]
+            res = drv.call(req)
+            m = res["m"]
             val = e.get(sort_by)
+            # the verdict recorded for this very combination against the model of `_test_viability` (`Carve.viability`): a
+            # combination flagged viable must be possibly viable for the model, one flagged not viable must not be certainly
+            # viable (exact rate ties in the rank test leave the two apart)
+            flag = e.get("viability")
+            if i > 0 and isinstance(flag, bool) and "viable" in res:
+                stats["viability_flags"] = stats.get("viability_flags", 0) + 1
+                if (flag and not res["viable"]) or (not flag and res["certain"]):
+                    fail("the viability recorded for a tested combination differs from the model of _test_viability", kind_="correspondence",
+                         feature=f, entry=i, recorded=flag, model={"viable": res["viable"], "certain": res["certain"]}, comb=comb, stage=stage)
+                    break
             if isinstance(m, dict):
                 exact = {"cramerv": math.sqrt(float(core.fractions.Fraction(m["v2"]))),
                          "tschuprowt": math.sqrt(math.sqrt(float(core.fractions.Fraction(m["t4"])))),
